@@ -21,7 +21,7 @@ BallotsClause(logged, exp, len) ==
   ELSE ""
 
 CsvClause ==
-  LET outs == LoadCSV(T.exists, T.table, T.cfg)
+  LET outs == LoadCSVR(T.exists, T.table, T.cfg, T.reps)
       errs == {o.err : o \in outs} \ {""}
   IN IF errs # {} THEN (IF T.error \in errs THEN "" ELSE IF T.error = "" THEN "NotRejected" ELSE "WrongError:" \o T.error)
      ELSE IF T.error # "" THEN "Error:" \o T.error
